@@ -16,13 +16,18 @@ Definition is_add (add : mutator) (n : name) : Prop :=
   (exists v, add = AddPar n v) \/ (exists v, add = AddVar n v) \/ (exists f a, add = AddDer n f a)
   \/ (exists f a st, add = AddRxn n f a st) \/ (exists f a, add = AddRo n f a) \/ (exists v, add = AddDat n v).
 
+Lemma build_cache_nofuel m : nofuel (build_cache m).
+Proof.
+  unfold build_cache. destruct (arity_all_ok m); [apply create_cache_nofuel|discriminate].
+Qed.
+
 Lemma ensure_cache_same s rc s1 :
   ensure_cache s = (rc, s1) -> same_content s s1 /\ rc <> Err EFuel.
 Proof.
   unfold ensure_cache. destruct (s_cache s) as [c|].
   - intro H. injection H as <- <-. split; [apply same_refl|discriminate].
-  - pose proof (create_cache_nofuel FnLib.fsem FnLib.fsemN gen_sort_facts (s_m s)) as Hnf.
-    destruct (create_cache _ _ _ (s_m s)) as [c|e]; intro H; injection H as <- <-.
+  - pose proof (build_cache_nofuel (s_m s)) as Hnf.
+    destruct (build_cache (s_m s)) as [c|e]; intro H; injection H as <- <-.
     + split; [split; reflexivity|discriminate].
     + split; [apply same_refl|exact Hnf].
 Qed.
@@ -158,51 +163,3 @@ Proof.
     destruct rc; exact Hs.
 Qed.
 
-Lemma step_ok s o : ids_ok s -> ids_ok (fst (step s o)).
-Proof.
-  intro Hok. destruct o as [mu|q]; cbn [step].
-  - apply (mutate_post s mu Hok).
-  - apply (ids_ok_same s); [apply ask_same|exact Hok].
-Qed.
-
-Lemma init_ok : ids_ok init.
-Proof.
-  split; cbn.
-  - constructor.
-  - tauto.
-  - constructor.
-  - intros n k. tauto.
-Qed.
-
-Lemma fold_ok h : forall s, ids_ok s -> ids_ok (fold_left (fun s o => fst (step s o)) h s).
-Proof.
-  induction h as [|o h IH]; intros s Hok; cbn [fold_left]; [exact Hok|]. apply IH. apply step_ok. exact Hok.
-Qed.
-
-Lemma history_ok h : ids_ok (run_history h).
-Proof. unfold run_history. apply fold_ok. apply init_ok. Qed.
-
-Lemma rejected_changes_nothing h mu s' e :
-  mutate (run_history h) mu = (s', Rejected e) ->
-  s_ids s' = s_ids (run_history h) /\ s_m s' = s_m (run_history h).
-Proof.
-  intro E. pose proof (mutate_post _ mu (history_ok h)) as [_ [Ha|[e' [_ [Hs _]]]]]; rewrite E in *; cbn [fst snd] in *.
-  - discriminate Ha.
-  - exact Hs.
-Qed.
-
-Lemma never_out_of_fuel h mu s' : mutate (run_history h) mu <> (s', Rejected EFuel).
-Proof.
-  intro E. pose proof (mutate_post _ mu (history_ok h)) as [_ [Ha|[e' [He [_ Hf]]]]]; rewrite E in *; cbn [fst snd] in *.
-  - discriminate Ha.
-  - injection He as <-. apply Hf; auto.
-Qed.
-
-Lemma name_reusable h rm n s1 :
-  is_remove rm n -> mutate (run_history h) rm = (s1, Accepted) ->
-  forall add, is_add add n -> exists s2, mutate s1 add = (s2, Accepted).
-Proof.
-  intros Hrm E add Hadd. unfold mutate in *.
-  destruct (run_remove_frees 4 _ rm n s1 (history_ok h) Hrm E) as [Hh [Hn _]].
-  apply (run_add_accepts 4 s1 add n); auto.
-Qed.
